@@ -196,6 +196,20 @@ impl Report {
 
     /// Writes evidence, prints KNOWN-FINDING / VIOLATION lines, returns the exit code.
     pub fn finish(mut self) -> i32 {
+        // replay mode: re-execute the (deterministic, exhaustive) check and report on one signature only
+        if let Ok(only) = std::env::var("TSMC_ONLY_SIG") {
+            return match self.vios.by_sig.get(&only) {
+                Some((n, detail)) => {
+                    println!("VIOLATION property={} replay=(reproduced) signature: {only} ({n} cases)", self.property);
+                    println!("{}", serde_json::to_string_pretty(detail).unwrap_or_default());
+                    1
+                }
+                None => {
+                    println!("signature not reproduced on the current tree: {only}");
+                    0
+                }
+            };
+        }
         let known = load_known(&self.property);
         let mut known_hits: BTreeMap<String, (u64, u64)> = BTreeMap::new(); // id -> (sigs, cases)
         let mut fresh: Vec<(String, u64, Value)> = Vec::new();
